@@ -36,9 +36,9 @@ ASSUMPTIONS = [
     "a HeterogeneousLinearModel applied at another resolution uses the nearest-neighbour (cv2.INTER_NEAREST) resampling of its original label map",
 ]
 FLOORS = {
-    "quick": {"clip": 300, "linear": 300, "combined_composition": 100, "combined_routing": 300, "heterogeneous_linear": 80, "heterogeneous_resolution_history": 100, "combined_routing_grouped": 100, "threshold": 150, "kernel_reproduces_values": 60, "kernel_values_updated": 100, "kernel_advanced_updated": 15,
+    "quick": {"two_live_objects": 400, "clip": 300, "linear": 300, "combined_composition": 100, "combined_routing": 300, "heterogeneous_linear": 80, "heterogeneous_resolution_history": 100, "combined_routing_grouped": 100, "threshold": 150, "kernel_reproduces_values": 60, "kernel_values_updated": 100, "kernel_advanced_updated": 15,
               "kernel_numba_equals_plain_sum": 150, "polynomial_span": 5},
-    "thorough": {"clip": 3000, "linear": 3000, "combined_composition": 1000, "combined_routing": 3000, "heterogeneous_linear": 800, "heterogeneous_resolution_history": 1000, "combined_routing_grouped": 1000, "threshold": 1500, "kernel_reproduces_values": 600, "kernel_values_updated": 1000, "kernel_advanced_updated": 150,
+    "thorough": {"two_live_objects": 4000, "clip": 3000, "linear": 3000, "combined_composition": 1000, "combined_routing": 3000, "heterogeneous_linear": 800, "heterogeneous_resolution_history": 1000, "combined_routing_grouped": 1000, "threshold": 1500, "kernel_reproduces_values": 600, "kernel_values_updated": 1000, "kernel_advanced_updated": 150,
                  "kernel_numba_equals_plain_sum": 1500, "polynomial_span": 5},
 }
 SHARD_TIMEOUT = {"quick": 1500, "thorough": 7200}
@@ -132,6 +132,33 @@ def run_shard(spec, R):
                     x = np.linspace(-1, 1, 7)
                     R.check(np.allclose(m3(x), exp[0] * x + exp[1], rtol=1e-14, atol=1e-14), "linear", {"model": "LinearModel", "dofs": dofs, "params": params, "expected": list(exp)})
             R.sig(["linear", name], True, cls="linear")
+
+        # ============================== two live objects of one class (nothing is shared between instances)
+        xs = rng.uniform(-1, 2, size=(4, 5))
+        pa, pb = rng.uniform(0.2, 0.9, size=4), rng.uniform(1.1, 2.0, size=4)
+        pairs = [
+            ("ClipModel", lambda p: darsia.ClipModel(**{"min value": float(p[0] - 0.2), "max value": float(p[0] + p[1])}), lambda p, x: np.clip(x, p[0] - 0.2, p[0] + p[1])),
+            ("ScalingModel", lambda p: darsia.ScalingModel(scaling=float(p[0])), lambda p, x: p[0] * x),
+            ("LinearModel", lambda p: darsia.LinearModel(scaling=float(p[0]), offset=float(p[1])), lambda p, x: p[0] * x + p[1]),
+            ("StaticThresholdModel", lambda p: darsia.StaticThresholdModel(float(p[0] - 0.2), float(p[0] + p[1])), lambda p, x: (x > p[0] - 0.2) & (x < p[0] + p[1])),
+            ("CombinedModel", lambda p: darsia.CombinedModel([darsia.LinearModel(scaling=float(p[0]), offset=float(p[1])), darsia.ClipModel(**{"min value": 0.0, "max value": float(p[2] + 1)})]),
+             lambda p, x: np.clip(p[0] * x + p[1], 0.0, p[2] + 1)),
+        ]
+        for label, make, ref in pairs:
+            ok, objs = R.guarded("two_live_objects", lambda: (make(pa), make(pb)))
+            if not ok:
+                continue
+            oa, ob = objs
+            if label in ("ScalingModel", "LinearModel"):
+                ob.update_model_parameters(np.array([3.0, 0.5])[: ob.num_parameters if hasattr(ob, "num_parameters") else 1], None)  # the second object is re-parametrised
+                refb = (lambda x: 3.0 * x) if label == "ScalingModel" else (lambda x: 3.0 * x + 0.5)
+            else:
+                refb = lambda x: ref(pb, x)  # noqa: E731
+            ok, vals = R.guarded("two_live_objects", lambda: (oa(xs.copy()), ob(xs.copy()), oa(xs.copy())))
+            if ok:
+                ea, eb = ref(pa, xs), refb(xs)
+                good = all(np.allclose(np.asarray(v, float), np.asarray(e, float), rtol=1e-14, atol=1e-14) for v, e in ((vals[0], ea), (vals[1], eb), (vals[2], ea)))
+                R.check(bool(good), "two_live_objects", {"model": label, "params_first": pa.tolist(), "params_second": pb.tolist()}, group=label)
 
         # ============================================================ combined
         parts_pool = [
